@@ -88,7 +88,7 @@ def malformed(rng, n):
             else:
                 out.append(rng.choice(names))
         return out
-    fixed = [[], [[]], [[], 'a'], ['', []], ['', ['a']], ['a', [], []], ['+', []], ['*', []], ['**', ['', []]], ['a', ['', []]],
+    fixed = [[], [[]], [[], 'a'], ['', []], ['', ['a']], ['a', [], []], ['+', []], ['*', []], ['*', [], []], ['**', [], [], []], ['**', ['', []]], ['a', ['', []]],
              ['a', [[]]], ['a', ['b', ['c', ['d', []]]]], ['', '', ''], ['a', ['+'], '+', ['+']]]
     return fixed + [forest(0) for _ in range(n)]
 
